@@ -2,7 +2,7 @@
     Statements only; proofs in Proofs/Builder_Proofs.v. *)
 From Coq Require Import ZArith QArith Qround Qabs List Lia.
 From SB Require Import Base.Prelude Base.Num Base.F32 Gen.Generated Model.Codec Model.Traj Model.Utils Model.Rth Model.Builder
-  Proofs.Builder_Proofs Proofs.Utils_Proofs Proofs.BuilderFast_Proofs Spec.TrajSpec Spec.BuilderSpec Proofs.BuilderSpec_Proofs Model.Poly Spec.BezierSpec.
+  Proofs.Builder_Proofs Proofs.Utils_Proofs Proofs.BuilderFast_Proofs Spec.TrajSpec Spec.BuilderSpec Proofs.BuilderSpec_Proofs Proofs.BuilderMarks_Proofs Model.Poly Spec.BezierSpec.
 Import ListNotations.
 Local Open Scope Z_scope.
 
@@ -113,13 +113,32 @@ Print Assumptions hold_closed_form.
         division (relative 2^-23).
     With C01's [position_exact] (the player's position on [encode_traj T] is the
     Bezier curve of [T]'s control points) this is the round trip of the property
-    for the x, y, z axes at the end of every call sequence; the yaw axis and
-    the intermediate instants are covered by the correspondence only. *)
+    for the x, y, z axes at the end of every call sequence
+    ([builder_passes_requested_points] below extends it to the instant of every
+    append-line call); the yaw axis is covered by the correspondence only. *)
 Theorem builder_refines_spec : forall scale flags b0 calls,
   0 <= scale -> builder_init scale flags = Ok b0 -> Forall call_ok calls ->
   exists T, builds (fst (brun b0 0 calls)) T /\ total_ms T = snd (brun b0 0 calls) /\ st_scale T = scale.
 Proof. exact BuilderSpec_Proofs.builder_refines_spec. Qed.
 Print Assumptions builder_refines_spec.
+
+(** ... and it passes, at the cumulative time of EVERY successful append-line
+    call, within one quantum of the point given to that call (x, y, z; lines of
+    positive duration - a zero-duration line is a jump and has no position at
+    its instant): [bmarks] lists (cumulative milliseconds, requested point) of
+    the successful append-line calls, [pos_ms T m] is the position of the
+    abstract trajectory at millisecond m (TrajSpec's [pos_from]: de Casteljau on
+    the chained control points).  Proof: appending straight-line segments of
+    positive duration does not change the position at earlier instants
+    ([pos_prefix]) and the position at the end of a chain is its end point
+    ([pos_end]), carried through the halving recursion and the hold loop. *)
+Theorem builder_passes_requested_points : forall scale flags b0 calls,
+  0 <= scale -> builder_init scale flags = Ok b0 -> Forall call_pos calls ->
+  exists T, builds (fst (brun b0 0 calls)) T /\ total_ms T = snd (brun b0 0 calls) /\
+            Forall (fun mp => 0 <= fst mp <= total_ms T /\ close_to scale (pos_ms T (fst mp)) (snd mp))
+                   (bmarks b0 0 calls).
+Proof. exact BuilderMarks_Proofs.builder_passes_requested_points. Qed.
+Print Assumptions builder_passes_requested_points.
 
 (** a segment with two control points on an axis moves on the straight line between them *)
 Theorem linear_segment_is_straight : forall a c u : Q, (bezier QOps [a; c] u == a + (c - a) * u)%Q.
